@@ -29,12 +29,26 @@ GUARDED = ("ioTick", "ioThreadRunning", "curSize", "numDiscarded", "queues")
 
 def run(ctx):
     # locals / parameters the rules below refer to by name (a rename makes the analysis 'broken', never a violation)
-    ctx.anchor(ctx.fn1('Oomd::Log::debugLog'), 'buf', 'q')
-    ctx.anchor(ctx.fn1('Oomd::Log::ioThread'), 'q', 'numDiscarded', 'io_thread_running', 'debug_sink')
     P, cg = ctx.prog, ctx.cg
     LA = LockAnalysis(P, cg)
     dbg = ctx.fn1("Oomd::Log::debugLog")
     io = ctx.fn1("Oomd::Log::ioThread")
+    # locals and parameters are found by the role they play, not by name (a function that no longer has one is 'analysis broken')
+    if len(dbg.params) != 1 or len(io.params) != 1:
+        raise AnalysisBroken("anchor: debugLog(text) / ioThread(sink) changed their parameter lists")
+    BUF = dbg.params[0]["name"]
+    SINK = io.params[0]["name"]
+    qls = locals_receiving(io, r"^this->state_\.getCurrentQueue\(\)$")
+    if len(qls) > 1:
+        raise AnalysisBroken("anchor: ioThread keeps the queue it took over in several locals %s" % qls)
+    # no such local: the flusher never takes the pointer of the queue it hands over (reported below); the name then matches nothing
+    QL = qls[0] if qls else "<no local holds the queue>"
+    if not qls:
+        ctx.violation("hand-over:pointer-taken-before-flip", "order+lockset", io.loc(),
+                      "the flusher never stores the pointer of the current queue: after flipping ioTick it has no queue of its own to write, "
+                      "or selects one again outside the critical section")
+    ND = role_local(ctx, io, r"^this->state_\.numDiscarded$", "the snapshot of the drop count")
+    RUN = role_local(ctx, io, r"^this->state_\.ioThreadRunning$", "the snapshot of the stop flag")
     dtor = ctx.fn1("Oomd::Log::~Log")
     gcq = ctx.fn1("Oomd::Log::AsyncLogState::getCurrentQueue")
 
@@ -86,7 +100,7 @@ def run(ctx):
                   "ioTick is flipped without the flusher holding the pointer of the queue it hands over")
     uses_outside = []
     for i, nn in enumerate(io.nodes):
-        if nn["k"] == "ref" and nn["name"] == "q" and io.pos_of(i) is not None and LOCK not in LA.held(io, i):
+        if nn["k"] == "ref" and nn["name"] == QL and io.pos_of(i) is not None and LOCK not in LA.held(io, i):
             uses_outside.append(i)
     okho = all(fio.must(i, "flipped") for i in uses_outside)
     ctx.check(okho and uses_outside, "hand-over:unlocked-use-only-after-flip", "audited-exception", io.loc(uses_outside[0]) if uses_outside else io.loc(),
@@ -113,7 +127,7 @@ def run(ctx):
     fd = Flow(P, dbg, cg=cg)
     ctx.counters["enqueue_sites"] = len(enq)
     ctx.floor("enqueue_sites", 1, "enqueue in debugLog")
-    SZ, CUR, MAX = r"buf\.(?:size|length)\(\)", r"this->state_\.curSize", r"this->state_\.maxSize"
+    SZ, CUR, MAX = re.escape(BUF) + r"\.(?:size|length)\(\)", r"this->state_\.curSize", r"this->state_\.maxSize"
     capA = re.compile(r"^\(%s < \((?:%s \+ %s|%s \+ %s)\)\)$" % (MAX, SZ, CUR, CUR, SZ))          # size + backlog > max
     capB = re.compile(r"^\(\(%s - %s\) < %s\)$" % (MAX, SZ, CUR))                                 # backlog > max - size   (needs size <= max)
     und = re.compile(r"^\(%s < %s\)$" % (MAX, SZ))                                                  # size > max
@@ -161,7 +175,7 @@ def run(ctx):
               "over the cap a line can still be enqueued, or the drop is not counted")
     # size accounting: operand of curSize += is the size of the enqueued string, taken before the move
     adds = [w for w in field_writes(dbg, "curSize")]
-    moves = [i for i in dbg.calls("std::move") if dbg.text(dbg.nodes[i]["args"][0]) == "buf"]
+    moves = [i for i in dbg.calls("std::move") if dbg.text(dbg.nodes[i]["args"][0]) == BUF]
     ev = {m: [("set", "moved")] for m in moves}
     fm = Flow(P, dbg, events=ev, cg=cg)
     ctx.counters["backlog_additions"] = len(adds)
@@ -171,23 +185,23 @@ def run(ctx):
         rhs = dbg.text(write_rhs(dbg, w))
         X = Expander(P, dbg)
         xr = X(write_rhs(dbg, w))
-        ctx.check(xr in ("param:buf.size()", "param:buf.length()") and dbg.nodes[w].get("op", dbg.nodes[w].get("op")) in ("+=",),
+        ctx.check(xr in ("param:%s.size()" % BUF, "param:%s.length()" % BUF) and dbg.nodes[w].get("op", dbg.nodes[w].get("op")) in ("+=",),
                   "backlog-accounts-enqueued-size", "value-shape", dbg.loc(w), "curSize grows by the size of the enqueued text", "curSize grows by " + xr)
         # every read of buf in the operand happens before buf is moved
-        reads = [x for x in dbg.walk(write_rhs(dbg, w)) if dbg.nodes[x]["k"] == "ref" and dbg.nodes[x]["name"] == "buf"]
+        reads = [x for x in dbg.walk(write_rhs(dbg, w)) if dbg.nodes[x]["k"] == "ref" and dbg.nodes[x]["name"] == BUF]
         # a local that captured the size earlier
         if not reads:
             for x in dbg.walk(write_rhs(dbg, w)):
                 if dbg.nodes[x]["k"] == "ref" and dbg.nodes[x].get("dk") == "local":
                     init, v = local_init(dbg, dbg.nodes[x]["name"])
                     if init >= 0:
-                        reads += [y for y in dbg.walk(init) if dbg.nodes[y]["k"] == "ref" and dbg.nodes[y]["name"] == "buf"]
+                        reads += [y for y in dbg.walk(init) if dbg.nodes[y]["k"] == "ref" and dbg.nodes[y]["name"] == BUF]
         uam = [r for r in reads if dbg.pos_of(r) is not None and fm.may(r, "moved")]
         ctx.check(not uam and bool(reads), "no-use-after-move:buf", "use_after_move", dbg.loc(w),
                   "the size is read before buf is moved into the queue",
                   "buf.size() is read after std::move(buf): a moved-from string reports 0, the backlog never grows and the 1 MiB cap is never enforced")
     for i in enq:
-        for r_ in [x for x in dbg.walk(i) if dbg.nodes[x]["k"] == "ref" and dbg.nodes[x]["name"] == "buf"]:
+        for r_ in [x for x in dbg.walk(i) if dbg.nodes[x]["k"] == "ref" and dbg.nodes[x]["name"] == BUF]:
             pass
     # generic use-after-move over Log.cpp functions
     for f in (dbg, io, dtor):
@@ -210,27 +224,41 @@ def run(ctx):
     for w in resets:
         ctx.check(LOCK in LA.held(io, w) and any(fio.must(t, "got-queue") for t in ticks), "flusher-resets-under-lock", "guarded_by(lockset)", io.loc(w),
                   "backlog counters are reset inside the swapping critical section", "backlog counter reset outside the lock")
-    nd_local = [i for i in io.all("decl") if any(v["name"] == "numDiscarded" for v in io.nodes[i].get("vars", []))]
+    nd_local = [i for i in io.all("decl") if any(v["name"] == ND for v in io.nodes[i].get("vars", []))]
     fio2 = Flow(P, io, cg=cg)
     rep = [i for i, nn in enumerate(io.nodes) if nn["k"] == "lit" and nn.get("lk") == "str" and "messages dropped" in nn["v"] and io.pos_of(i) is not None]
-    ctx.check(bool(rep) and all(any(k == "numDiscarded" and p is True for k, p in fio2.guards(i)) for i in rep), "drops-reported", "guarded_by", io.loc(rep[0]) if rep else io.loc(),
+    ctx.check(bool(rep) and all(any(((k == ND and p is True) or (k in ("(%s == 0)" % ND, "(0 == %s)" % ND) and p is False) or (k == "(0 < %s)" % ND and p is True)) for k, p in fio2.guards(i)) for i in rep), "drops-reported", "guarded_by", io.loc(rep[0]) if rep else io.loc(),
               "the number of dropped messages is written to the sink when non-zero", "dropped messages are not reported in the output")
-    for w in local_writes(io, "numDiscarded"):
+    for w in local_writes(io, ND):
         ctx.check(io.text(write_rhs(io, w)) == "this->state_.numDiscarded" and LOCK in LA.held(io, w), "drop-count-snapshot", "provenance", io.loc(w),
                   "the reported count is a snapshot taken under the lock", "reported drop count is " + io.text(write_rhs(io, w)))
     # after observing the stop flag the held queue is still written
-    lp = [l for l in loops(io) if l["stmt"] is not None and io.nodes[l["stmt"]]["k"] == "while"]
-    writes = [i for i in io.calls() if io.nodes[i].get("op") == "<<" and "debug_sink" in io.text(i) and "buf" in io.text(i)]
+    lp = [l for l in loops(io) if l["stmt"] is not None and io.nodes[l["stmt"]]["k"] in ("while", "do")]
+    # the loop over the held queue (range-for, iterator or index form) and the sink writes of its elements
+    Xio = Expander(P, io)
+    qloops = [l for l in loops(io) if loop_container(io, l) == "*" + QL]
+    writes = []
+    for l in qloops:
+        for i in io.calls():
+            if io.nodes[i].get("op") == "<<" and io.pos_of(i) is not None and io.pos_of(i)[0] in l["body"] and re.search(r"\b%s\b" % re.escape(SINK), io.text(i)) \
+                    and re.search(r"elem\(\*?%s\)|\(?\*%s\)?\[" % (re.escape("var:" + QL), re.escape("var:" + QL)), Xio(i)):
+                writes.append(i)
     ctx.check(len(lp) >= 1 and bool(writes), "flusher-writes-held-queue", "anchor", io.loc(), "flusher writes its queue to the sink", "flusher does not write its queue")
     if lp:
         L = lp[0]
-        stopw = [w for w in local_writes(io, "io_thread_running")]
+        stopw = [w for w in local_writes(io, RUN)]
         ev = {w: [("set", "saw-stop-flag")] for w in stopw}
         ev.update({i: [("set", "wrote")] for i in writes})
-        rng = [io.nodes[l["stmt"]].get("range", -1) for l in loops(io) if io.nodes[l["stmt"]]["k"] == "rangefor"]
-        for r_ in rng:
-            if r_ >= 0 and io.pos_of(r_) is not None:
-                ev.setdefault(r_, []).append(("set", "write-loop"))
+        for l in qloops:
+            sn = io.nodes[l["stmt"]]
+            # the point every pass over the queue goes through once, before the first element: the range / the init statement
+            r_ = sn.get("range", -1) if sn["k"] == "rangefor" else sn.get("init", -1)
+            if r_ is not None and r_ >= 0:
+                if io.nodes[r_]["k"] == "decl":
+                    r_ = next((v_["init"] for v_ in io.nodes[r_].get("vars", []) if v_.get("init") is not None and v_.get("init", -1) >= 0), r_)
+                tgt = r_ if io.pos_of(r_) is not None else next((x for x in io.walk(r_) if io.pos_of(x) is not None), None)
+                if tgt is not None:
+                    ev.setdefault(tgt, []).append(("set", "write-loop"))
         fi = iter_flow(ctx, io, L, ev)
         ok = True
         for b in back_sources(L):
@@ -288,5 +316,5 @@ def run(ctx):
         t = " ".join(l.text(l.nodes[r]["val"]) for r in returns(l) if "val" in l.nodes[r])
         if "ioThreadRunning" in t:
             ctx.use(l)
-            ctx.check("!this->state_.ioThreadRunning" in t and "size()" in t, "wait-predicate", "value-shape", l.loc(),
+            ctx.check("!this->state_.ioThreadRunning" in t and re.search(r"\b%s->size\(\)|!%s->empty\(\)" % (re.escape(QL), re.escape(QL)), t) is not None, "wait-predicate", "value-shape", l.loc(),
                       "the flusher wakes for stop or for queued lines", "wait predicate is " + t)
